@@ -17,6 +17,8 @@
               book-keeping (received − sent − what went to the sinks); that they coincide
               with the model's `bal1/bal2/lpOwn` ghosts is a THEOREM (Props/C01Ledger.lean),
               not a definition.
+  * `LOp.xfer` = a plain ESDT transfer of a pool token or of the LP token from one account to
+              another (no contract runs); fails if the sender is short or the amount is 0.
   * `LOp.fund` = the test faucet (`PairWorld::ensure` of the harness): tops an account up to
               a given amount of a pool token; the amount created enters `supplyA/supplyB`.
 
@@ -103,12 +105,49 @@ structure L where
   supplyB : Nat
   deriving DecidableEq, Repr
 
+/-- the fungible tokens an account can send to another account by a plain ESDT transfer:
+    the two pool tokens and the LP token -/
+inductive Tok | a | b | lp
+  deriving DecidableEq, Repr
+
+/-- holdings of token `t` -/
+def Acct.bal (x : Acct) : Tok → Nat
+  | .a => x.a
+  | .b => x.b
+  | .lp => x.lp
+
+/-- take `n` units of token `t` out of the wallet; fails like the protocol when it is short -/
+def Acct.debit (x : Acct) (t : Tok) (n : Nat) : Option Acct :=
+  match t with
+  | .a => do let v ← sub? x.a n; pure { x with a := v }
+  | .b => do let v ← sub? x.b n; pure { x with b := v }
+  | .lp => do let v ← sub? x.lp n; pure { x with lp := v }
+
+/-- put `n` units of token `t` into the wallet -/
+def Acct.credit (x : Acct) (t : Tok) (n : Nat) : Acct :=
+  match t with
+  | .a => { x with a := x.a + n }
+  | .b => { x with b := x.b + n }
+  | .lp => { x with lp := x.lp + n }
+
 inductive LOp
   /-- faucet: account `i` is topped up to hold at least `x` of the first / second pool token -/
   | fund (i : Nat) (first : Bool) (x : Nat)
   /-- account `i` calls the pair -/
   | call (i : Nat) (op : Op)
+  /-- plain ESDT transfer (no contract involved): account `src` sends `x` units of token `t`
+      to account `dst`.  The protocol rejects a zero amount and a sender that is short. -/
+  | xfer (src dst : Nat) (t : Tok) (x : Nat)
   deriving DecidableEq, Repr
+
+/-- the accounts after `src` sent `x` of token `t` to `dst` (`src = dst` allowed: net zero) -/
+def xferAccts (accts : List Acct) (src dst : Nat) (t : Tok) (x : Nat) : Option (List Acct) := do
+  req (0 < x)
+  let s ← accts[src]?
+  let s' ← s.debit t x
+  let l1 := accts.set src s'
+  let d ← l1[dst]?
+  pure (l1.set dst (d.credit t x))
 
 /-- the pair's own wallet after a call: what it held, plus the payment, minus what it sent
     back to the caller, minus what the call moved to the burn address, the fees collector, the
@@ -140,6 +179,9 @@ def stepL (l : L) : LOp → Option (L × Out)
               pairLp := l.pairLp + (move op r.2).payLp + (r.1.S - l.p.S) - (move op r.2).getLp
                 - (l.p.S - r.1.S),
               supplyA := l.supplyA, supplyB := l.supplyB }, r.2)
+  | .xfer src dst t x => do
+      let accts ← xferAccts l.accts src dst t x
+      pure ({ l with accts := accts }, {})
 
 /-- the ledger after a history: failed transactions leave everything unchanged -/
 def runL (l : L) (ops : List LOp) : L :=
